@@ -341,6 +341,42 @@ def build(M):
             return NotImplemented
         return m
 
+    def c_find_map(eng, st, fr, t, name, rname, args):
+        """`it.find_map(f)`: f on each item in order; the first Some(..) it answers is the result"""
+        xs = items_of(eng, st, args[0])
+        if xs is None:
+            return NotImplemented
+        out = []
+        work = [(st, 0)]
+        guard = 0
+        while work:
+            s, i = work.pop()
+            guard += 1
+            if guard > 20000:
+                raise fdai.TooManyPaths("iterator fold")
+            if s.outcome is not None:
+                out.append((s, TOP))
+                continue
+            if i >= len(xs):
+                set_consumed(eng, s, t, len(xs))
+                out.append((s, mk_option(None)))
+                continue
+            f2 = s.frames[-1]
+            clo = eng.operand(s, f2, t["args"][1])
+            for s2, v in eng.call_closure(s, f2, clo, [xs[i]], t):
+                if s2.outcome is not None:
+                    out.append((s2, TOP))
+                    continue
+                v = eng.resolve(s2, v)
+                if isinstance(v, fdai.EnumV) and v.name == "Some":
+                    set_consumed(eng, s2, t, i + 1)
+                    out.append((s2, v))
+                elif isinstance(v, fdai.EnumV) and v.name == "None":
+                    work.append((s2, i + 1))
+                else:
+                    out.append((s2, s2.fresh(("iter-undecided",))))
+        return out
+
     def fold_from_fn(eng, st, fr, t, args):
         """fold over core::iter::from_fn(g): g is called for the next item until it answers None (lazy, in order)"""
         ff = M._fromfn_of(eng, st, args[0])
@@ -474,5 +510,5 @@ def build(M):
     }
     table = {k: v for k, v in table.items() if v is not None}
     consumers = {I + "next": c_next, I + "nth": c_nth, I + "count": c_count, I + "all": search("all"), I + "any": search("any"),
-                 I + "position": search("position"), I + "rposition": search("rposition"), I + "find": search("find")}
+                 I + "position": search("position"), I + "rposition": search("rposition"), I + "find": search("find"), I + "find_map": c_find_map}
     return table, consumers, m_filter("take_while"), with_fallback
